@@ -97,7 +97,7 @@ extern "C" void libnstd_verif_pool_config(usize* mn, usize* mx, usize* q) { if (
 // ------------------------------------------------------------------ virtual skew of CLOCK_MONOTONIC (worker retirement needs > 2 s of idleness)
 static volatile long g_skewMs = 0;
 extern "C" int clock_gettime(clockid_t clk, struct timespec* ts) {
-  typedef int (*fn_t)(clockid_t, struct timespec*); static fn_t real = 0; if (!real) real = (fn_t)dlsym(RTLD_NEXT, "clock_gettime");
+  typedef int (*fn_t)(clockid_t, struct timespec*); static fn_t realp = 0; fn_t real = __atomic_load_n(&realp, RLX); if (!real) { real = (fn_t)dlsym(RTLD_NEXT, "clock_gettime"); __atomic_store_n(&realp, real, RLX); }
   int r = real(clk, ts);
   if (r == 0 && clk == CLOCK_MONOTONIC) { long sk = __atomic_load_n(&g_skewMs, RLX); ts->tv_sec += sk / 1000; ts->tv_nsec += (sk % 1000) * 1000000L; if (ts->tv_nsec >= 1000000000L) { ts->tv_nsec -= 1000000000L; ++ts->tv_sec; } }
   return r;
